@@ -4,7 +4,7 @@ from . import common, projgen, projcheck, projrun, clirun, ninjaparse
 
 PROF = projgen.profile(n_ctx=(1, 2), n_builders=(2, 2), n_mods=(2, 4), n_apps=(2, 2), p_subdir=0.8, p_include=0.3, p_tasks=0.2,
                        p_custom_build=0.0, p_download=0.0, p_cli_builders=0.0, p_cli_apps=0.0, p_cli_select=0.0, p_cli_disable=0.0,
-                       p_cli_define=0.0, p_hard_missing=0.0, p_cycle=0.0, p_app_elsewhere=0.0, p_blockallow=0.05, p_varopts=0.05)
+                       p_cli_define=0.0, p_hard_missing=0.0, p_cycle=0.0, p_app_elsewhere=0.0, p_blockallow=0.05, p_varopts=0.05, p_app_dup=0.3)
 POINTS = ["after_cache_check", "after_parse", "after_stat", "after_cache_remove", "after_ninja_create", "after_header",
           "after_configure", "after_entries", "after_flush", "after_cache_write"]
 LAZE2 = os.path.join(common.BUILD, "laze-other-binary")
@@ -46,13 +46,39 @@ def arg_pool(p):
         pool.append({"local": d})
     if appdirs:
         pool.append({"local": appdirs[-1], "define": ["X=1"]})
+    # local mode with an explicit app list: an app of that directory (served from the cache of a wider local run: the name may also be
+    # defined in another directory, for another context), and an app of ANOTHER directory (refused cold and from the cache alike)
+    here = {d: sorted({m["name"] for kind, m, path in projcheck.yaml_modules(p) if kind == "apps" and os.path.dirname(path) == d}) for d in appdirs}
+    for d in appdirs[:2]:
+        pool.append({"local": d, "apps": here[d][:1]})
+        other = [a for a in apps if a not in here[d]]
+        if other:
+            pool.append({"local": d, "apps": other[:1]})
     return pool
+
+
+def dup_app_elsewhere(p, rng):
+    """the name of an app defined a second time, in another directory and for another context (a builder); its own bindir keeps the
+    two output files apart"""
+    apps = [(m, path) for kind, m, path in projcheck.yaml_modules(p) if kind == "apps"]
+    builders = [b["name"] for b in p["files"]["laze-project.yml"][0]["builders"]]
+    if not apps or not builders:
+        return
+    a, apath = rng.choice(apps)
+    others = [path for path in p["files"] if os.path.dirname(path) != os.path.dirname(apath) and path != "laze-project.yml"]
+    if not others or a.get("context", "default") in builders:
+        return
+    b = {"name": a["name"], "context": rng.choice(builders), "sources": [a["name"] + "_second.c"],
+         "env": {"global": {"bindir": "${build-dir}/out2/${builder}/${app}"}}}
+    p["files"][rng.choice(sorted(others))][0].setdefault("apps", []).append(b)
 
 
 def gen_history(seed, i, maxlen):
     rng = random.Random(seed * 9176 + i)
     p = projgen.gen_project(seed + 800, i, PROF)
     p["args"] = {}
+    if rng.random() < 0.15:
+        dup_app_elsewhere(p, rng)
     pool = arg_pool(p)
     files = list(p["files"].keys())
     evs = [{"e": "run", "args": rng.choice(pool[:6])}]
@@ -73,6 +99,17 @@ def gen_history(seed, i, maxlen):
             evs.append({"e": "swap"})
         else:
             evs.append({"e": "run", "args": rng.choice(pool[:6]), "stop": "after_stat", "edit_during": rng.choice(files)})
+    dirs_of = {}
+    for kind, m, path in projcheck.yaml_modules(p):
+        if kind == "apps":
+            dirs_of.setdefault(m["name"], set()).add(os.path.dirname(path))
+    twice = sorted(n for n, ds in dirs_of.items() if len(ds) >= 2)
+    if twice and rng.random() < 0.6:
+        # an app name defined in two directories (two contexts): a wide local run in one of them, then that name alone
+        n = rng.choice(twice)
+        d = rng.choice(sorted(dirs_of[n]))
+        evs.append({"e": "run", "args": {"local": d}})
+        return {"project": p, "events": evs, "final": {"local": d, "apps": [n]}}
     if rng.random() < 0.35:
         # a history that moves between start directories (local mode shares one cache file for all of them)
         loc = [a for a in pool if "local" in a]
@@ -250,11 +287,14 @@ class Hist:
                 if os.path.exists(tag + ".reached") or pr.poll() is not None:
                     break
                 time.sleep(0.002)
-            if os.path.exists(tag + ".reached"):
+            reached = os.path.exists(tag + ".reached")
+            if reached:
                 self.edit(edit_during)
             open(tag + ".go", "w").close()
             out, err = pr.communicate(timeout=240)
-            r = {"rc": pr.returncode, "stdout": out.decode("utf-8", "replace"), "stderr": err.decode("utf-8", "replace"), "spawns": []}
+            # a run served from the cache never parses: the window is not reached and the edit does not take place
+            r = {"rc": pr.returncode, "stdout": out.decode("utf-8", "replace"), "stderr": err.decode("utf-8", "replace"), "spawns": [],
+                 "window_reached": reached}
             projrun.read_dump(self.s.d)
         else:
             inv = {"args": args, "flags": {"generate_only": generate_only}, "ninja_rc": ninja_rc}
@@ -322,7 +362,7 @@ def run_history(sc):
                 r = h.run(args, stop=ev.get("stop"), edit_during=ev.get("edit_during"), nocache=bool(ev.get("nocache")))
                 if not ev.get("stop") and r["rc"] != 0 and not r["hit"]:
                     failing = True        # generation itself reports an error: an external event for the protocol model
-                if ev.get("edit_during"):
+                if ev.get("edit_during") and r.get("window_reached"):
                     out["window_edit"] = True
                     # model: run stopped after parse... the edit lands inside the window; model it as kill-free: parse, edit, rest
                     out["model_events"].append({"e": "run", "key": key_of(args, h.uuid, conf), "files": h.files(), "stop": "never", "failing": failing,
